@@ -32,10 +32,11 @@ VARIABLES
   maxAmt,    \* largest representable amount in the run's scale (u128 bound), -1 = unreachable
   credit,    \* [Pairs -> Int]       history: granted - drawn (difference form, DESIGN C-6)
   migrated,  \* FALSE while a pre-0.14 token has not been migrated
+  mk,        \* [project, description, marketing, logo, mime]  MarketingInfo{} / DownloadLogo{} ("none" = unset)
   ev         \* the call that produced this state: [act, by, args, ok]
 
-sv_ == <<accts, bal, supply, mint, allow, ov, sv, now, out, maxAmt, credit, migrated>>
-vars == <<accts, bal, supply, mint, allow, ov, sv, now, out, maxAmt, credit, migrated, ev>>
+sv_ == <<accts, bal, supply, mint, allow, ov, sv, now, out, maxAmt, credit, migrated, mk>>
+vars == <<accts, bal, supply, mint, allow, ov, sv, now, out, maxAmt, credit, migrated, mk, ev>>
 
 Pairs == Addr \X Addr
 NoMint == [addr |-> "none", cap |-> -1]
@@ -183,6 +184,30 @@ C19_MigrateKeeps == Step /\ E.act = "migrate" =>
   /\ Ok => migrated' = TRUE
 C19_OnlyMigrateMigrates == Step /\ migrated' # migrated => IsOk("migrate")
 
+\* ------------------------------------------------------------------ beyond the listed properties
+\* Marketing / logo entry points (not part of C01 C02 C13 C19; validated by the conformance checks).
+NoMk == [project |-> "none", description |-> "none", marketing |-> "none", logo |-> "none", mime |-> "none"]
+MkActs == {"update_marketing", "upload_logo"}
+Upd(old, arg) == IF arg = "keep" THEN old ELSE IF arg = "clear" THEN "none" ELSE arg
+GoodLogos == {"url", "png", "maxpng", "svg"}          \* within the 5 KB cap, PNG header / XML preamble present
+LogoOf(kind) == IF kind = "url" THEN "url" ELSE "embedded"
+MimeOf(kind) == IF kind = "url" THEN "none" ELSE IF kind = "svg" THEN "image/svg+xml" ELSE "image/png"
+X20_MarketingWriters == Step /\ mk' # mk => Ok /\ E.act \in MkActs /\ E.by = mk.marketing /\ mk.marketing # "none"
+X20_UpdateMarketingExact == Step /\ IsOk("update_marketing") =>
+  /\ E.by = mk.marketing /\ mk.marketing # "none"
+  /\ mk' = [project |-> Upd(mk.project, E.args.project), description |-> Upd(mk.description, E.args.description),
+            marketing |-> Upd(mk.marketing, E.args.marketing), logo |-> mk.logo, mime |-> mk.mime]
+X20_UploadLogoExact == Step /\ IsOk("upload_logo") =>
+  /\ E.by = mk.marketing /\ mk.marketing # "none" /\ E.args.kind \in GoodLogos
+  /\ mk' = [mk EXCEPT !.logo = LogoOf(E.args.kind), !.mime = MimeOf(E.args.kind)]
+X20_TokenUntouched == Step /\ E.act \in MkActs => bal' = bal /\ supply' = supply /\ allow' = allow /\ mint' = mint /\ ov' = ov /\ sv' = sv
+X20_Init == E.act = "reset" /\ Ok =>
+  mk' = IF E.cfg.mkt.on
+        THEN [project |-> "proj0", description |-> "none", marketing |-> E.cfg.mkt.addr,
+              logo |-> IF E.cfg.mkt.logo = "none" THEN "none" ELSE LogoOf(E.cfg.mkt.logo),
+              mime |-> IF E.cfg.mkt.logo \in {"none", "url"} THEN "none" ELSE MimeOf(E.cfg.mkt.logo)]
+        ELSE NoMk
+
 (***************************************************************************)
 (* Reference machine: what the code does on success, entry point by entry  *)
 (* point (guards as in the code).  Failing calls do not change the state.  *)
@@ -256,6 +281,15 @@ DoUpdateMinter(s, new) ==
   /\ mint.addr = s /\ s # "none"
   /\ mint' = IF new = "none" THEN NoMint ELSE [addr |-> new, cap |-> mint.cap]
   /\ Frame_Tok /\ Frame_Allow /\ out' = <<>>
+DoUpdateMarketing(s, pr, de, ma) ==
+  /\ mk.marketing = s /\ s # "none"
+  /\ mk' = [project |-> Upd(mk.project, pr), description |-> Upd(mk.description, de), marketing |-> Upd(mk.marketing, ma),
+            logo |-> mk.logo, mime |-> mk.mime]
+  /\ Frame_Tok /\ Frame_Allow /\ UNCHANGED mint /\ out' = <<>>
+DoUploadLogo(s, kind) ==
+  /\ mk.marketing = s /\ s # "none" /\ kind \in GoodLogos
+  /\ mk' = [mk EXCEPT !.logo = LogoOf(kind), !.mime = MimeOf(kind)]
+  /\ Frame_Tok /\ Frame_Allow /\ UNCHANGED mint /\ out' = <<>>
 DoMigrate ==
   /\ ~migrated /\ migrated' = TRUE /\ sv' = ov
   /\ Frame_Tok /\ UNCHANGED <<mint, allow, ov, credit, out>>
